@@ -352,6 +352,32 @@ Theorem C13_unbond_once_on_tree : forall s a r, recs s a = Some r -> ~ In a (pro
 Proof. exact unbond_once_on_tree. Qed.
 Print Assumptions C13_unbond_once_on_tree.
 
+(*    THE TREE AS IT IS (translator tie): the penalty is capped at what matured (C13-3 is repaired, /repo 5731fb6).  On a
+      tree that refuses instead this and the two theorems after it stop compiling. *)
+Theorem C13_tree_penalty_capped : unbond_penalty_capped = true.
+Proof. reflexivity. Qed.
+Print Assumptions C13_tree_penalty_capped.
+
+Theorem C13_unbond_pays_on_tree : forall s a r, recs s a = Some r -> ~ In a (proposal s) -> o_online r = false ->
+  (forall u, In u (ubds s) -> u_orc u <> a) -> 0 <= bal_d s a ->
+  exists s', step s (Unbond a) = Ok s' /\
+    bal_o s' a = bal_o s a + Z.max 0 (bal_d s a - slash_amount r (p_fraction (prm s))) /\
+    burned s' = burned s + Z.min (slash_amount r (p_fraction (prm s))) (bal_d s a) /\
+    bal_d s' a = 0 /\ recs s' a = None /\ by_bridger s' (o_bridger r) = None /\ by_ext s' (o_ext r) = None /\
+    (forall s'', step s' (Unbond a) <> Ok s'').
+Proof. exact unbond_pays_on_tree. Qed.
+Print Assumptions C13_unbond_pays_on_tree.
+
+Theorem C13_penalty_capped_life_cycle_on_tree :
+  let s := run w_init1 w_J in
+  let s' := exec s (Unbond 3) in
+  is_ok (step s (Unbond 3)) = true /\ bal_d s 3 = FX 9500 + 9 /\
+  bal_o s' 3 = bal_o s 3 /\ burned s' = burned s + (FX 9500 + 9) /\ bal_d s' 3 = 0 /\
+  recs s' 3 = None /\ by_bridger s' 103 = None /\ by_ext s' 203 = None /\
+  step s' (Unbond 3) = Err e_notfound.
+Proof. exact penalty_capped_life_cycle_on_tree. Qed.
+Print Assumptions C13_penalty_capped_life_cycle_on_tree.
+
 Theorem C13_unbond_refused_while_pending_on_tree : forall s a r,
   recs s a = Some r -> has_ubd a (o_val r) (ubds s) = true -> forall s', step s (Unbond a) <> Ok s'.
 Proof. exact unbond_refused_while_pending_on_tree. Qed.
